@@ -170,19 +170,27 @@ def main(inp, outp):
             res["samples"].append({"orbit": data, "rate_coefficients": c})
         res["nontrivial"].append(json.dumps([v["k"], v["ecc"], v["s2"], len(v["steps"])]))
     # hyperbolic / generic float orbits: laws only
+    # "two-body": the attracting body is the one of the orbit's frame - the Earth, the Moon or a synthetic heavy body
+    fframe, fmu, fscale = "EME2000", MU, 1.0
+    if job.get("body") in ("moon", "heavy"):
+        from beyond.constants import Moon, Body
+        from beyond.frames import frames as fr, orient, center
+        body = Moon if job["body"] == "moon" else Body("VfHeavyK", mass=3.0e29, equatorial_radius=4.0e8)
+        fframe = fr.Frame("VfK" + job["body"], orient.EME2000, center.Center("VfK" + job["body"] + "C", body=body))
+        fmu, fscale = body.mu, (0.3 if job["body"] == "moon" else 1500.0)
     rng = np.random.default_rng(job.get("seed", 0))
     for _ in range(job.get("nfloat", 0)):
         hyp = rng.random() < 0.5
         e = float(rng.uniform(1.01, 10)) if hyp else float(10 ** rng.uniform(-4, math.log10(0.95)))
-        rp = float(rng.uniform(6.7e6, 3e7))
+        rp = float(rng.uniform(6.7e6, 3e7)) * fscale
         a = rp / (1 - e)
         M0 = float(rng.uniform(-2, 2)) if hyp else float(rng.uniform(0, TWO_PI))
         kep = [a, e, float(rng.uniform(0.05, 3.0)), float(rng.uniform(0, TWO_PI)), float(rng.uniform(0, TWO_PI)), M0]
-        o = Orbit(kep, DATE, "keplerian_mean", "EME2000", "Kepler")
-        n = math.sqrt(MU / abs(a) ** 3)
-        tmax = 30 * 86400.0 if not hyp else min(30 * 86400.0, 6.0 / n)
+        o = Orbit(kep, DATE, "keplerian_mean", fframe, "Kepler")
+        n = math.sqrt(fmu / abs(a) ** 3)
+        tmax = (30 * 86400.0 if fscale == 1.0 else min(30 * 86400.0, 2000.0 / n)) if not hyp else min(30 * 86400.0, 6.0 / n)
         t1, t2 = float(rng.uniform(-tmax, tmax)), float(rng.uniform(-tmax, tmax))
-        data = {"kep": kep, "t1": t1, "t2": t2}
+        data = {"kep": kep, "t1": t1, "t2": t2, "central_body": job.get("body", "earth"), "mu": fmu}
         try:
             p1 = o.propagate(DATE + timedelta(seconds=t1))
             p12 = Orbit(np.asarray(p1), p1.date, p1.form, p1.frame, "Kepler").propagate(p1.date + timedelta(seconds=t2))
@@ -200,7 +208,7 @@ def main(inp, outp):
         # independent oracle: the universal-variable (Stumpff) solution of the two-body problem from the initial cartesian state
         c0 = np.asarray(o.copy(form="cartesian"), float)
         ttot = t1 + t2
-        uv = universal_two_body(c0[:3], c0[3:], ttot, MU)
+        uv = universal_two_body(c0[:3], c0[3:], ttot, fmu)
         if uv is not None:
             rel_u = np.linalg.norm(y[:3] - uv[:3]) / np.linalg.norm(uv[:3]) + np.linalg.norm(y[3:] - uv[3:]) / np.linalg.norm(uv[3:])
             clause("Kepler propagation agrees with an independent universal-variable solution of the two-body problem", rel_u <= 1e-7 * (1 + abs(n * ttot)),
